@@ -79,6 +79,11 @@ def discharge(engine, chk, contracts_by_target=None, opts=None, expect_fail=None
                     o.detail["replay_error"] = repr(e)
                 if code:
                     attach(o, code, raises_is_violation=ob.meta.get("raises_is_violation", True))
+            if "replay-required" in name and not (o.replay and o.replay.get("confirmed")):
+                # the clause is stricter than the property's sentence (it forbids more than the property does); a failed proof
+                # counts as a violation only with a concrete input on the real code that violates the property itself
+                o.status = UNDECIDED
+                o.detail["downgraded"] = "clause stricter than the property; no violating input of the property found by the replay"
             out.append(o)
         elif st == "error":
             out.append(Ob(name, ERROR, backend=be, seconds=dt, detail=dict(err=str(info)[:500])))
